@@ -17,8 +17,8 @@
    maxPutID / maxGetID, and next_id = maxid + 2 on a non-empty queue.  So nb_inv alone is NOT
    preserved by a post (nb_inv_post_counterexample below).  The missing conjunct is maxid_ok, which
    is established by init_state, preserved by post (maxid := id) and by cancel (maxids untouched,
-   leads only removed).  All posting theorems carry maxid_ok as an extra hypothesis and
-   conclusion. *)
+   leads only removed).  The posting theorems are stated for nb_inv_full = nb_inv /\ maxid_ok;
+   cancel preserves both nb_inv (cancel_inv_nb) and nb_inv_full (cancel_inv). *)
 From Pnc Require Import NbSpec Proofs_Disk Proofs_Lists.
 Require Import Lia ZArith List Bool ZifyBool.
 Import ListNotations.
@@ -1075,6 +1075,36 @@ Proof.
       exact IH.
 Qed.
 
+(* one removal step on either queue: nb_inv alone is preserved (no id is created) *)
+Lemma step_get_nb st x gl l :
+  nb_inv st -> remove_lead (get_lead st) x = Some (gl, l) ->
+  nb_inv (set_get st gl (remove_slice (get_reqs st) (l_nonlead_off l) (l_nonlead_num l))).
+Proof.
+  intros (Hp & Hg) Hr. split; cbn [set_get put_lead put_reqs get_lead get_reqs maxPutID maxGetID].
+  - exact Hp.
+  - exact (remove_inv _ _ _ _ _ _ _ Hg Hr).
+Qed.
+
+Lemma step_put_nb st x pl l ab :
+  nb_inv st -> remove_lead (put_lead st) x = Some (pl, l) ->
+  nb_inv (set_abuf (set_put st pl (remove_slice (put_reqs st) (l_nonlead_off l) (l_nonlead_num l))) ab).
+Proof.
+  intros (Hp & Hg) Hr. split; cbn [set_abuf set_put put_lead put_reqs get_lead get_reqs maxPutID maxGetID].
+  - exact (remove_inv _ _ _ _ _ _ _ Hp Hr).
+  - exact Hg.
+Qed.
+
+Lemma cancel_st_nb : forall ids st, nb_inv st -> nb_inv (cancel_st st ids).
+Proof.
+  induction ids as [|x r IH]; intros st H; cbn [cancel_st]; [exact H|].
+  destruct (x =? NC_REQ_NULL); [apply IH; exact H|].
+  destruct (Z.land x 1 =? 1).
+  - destruct (remove_lead (get_lead st) x) as [[gl l]|] eqn:Er; [|apply IH; exact H].
+    apply IH. exact (step_get_nb _ _ _ _ H Er).
+  - destruct (remove_lead (put_lead st) x) as [[pl l]|] eqn:Er; [|apply IH; exact H].
+    apply IH. exact (step_put_nb _ _ _ _ _ H Er).
+Qed.
+
 (* one removal step on either queue *)
 Lemma step_get_inv st x gl l :
   nb_inv_full st -> remove_lead (get_lead st) x = Some (gl, l) ->
@@ -1161,27 +1191,27 @@ Proof.
 Qed.
 
 (* cancel never adds an id *)
-Lemma cancel_st_ids_incl : forall ids st, nb_inv_full st ->
+Lemma cancel_st_ids_incl : forall ids st, nb_inv st ->
   incl (map l_id (all_leads (cancel_st st ids))) (map l_id (all_leads st)).
 Proof.
   induction ids as [|x r IH]; intros st H; cbn [cancel_st]; [apply incl_refl|].
   destruct (x =? NC_REQ_NULL); [apply IH; exact H|].
   destruct (Z.land x 1 =? 1).
   - destruct (remove_lead (get_lead st) x) as [[gl f]|] eqn:Er; [|apply IH; exact H].
-    eapply incl_tran; [apply IH; exact (step_get_inv _ _ _ _ H Er)|].
-    destruct H as ((_ & Hg) & _). destruct Hg as (Hnd & _).
+    eapply incl_tran; [apply IH; exact (step_get_nb _ _ _ _ H Er)|].
+    destruct H as (_ & Hg). destruct Hg as (Hnd & _).
     destruct (remove_ids _ _ _ _ Hnd Er) as (_ & Hincl).
     unfold all_leads. cbn [set_get put_lead get_lead]. rewrite !map_app.
     apply incl_app; [apply incl_appl, incl_refl|apply incl_appr; exact Hincl].
   - destruct (remove_lead (put_lead st) x) as [[pl f]|] eqn:Er; [|apply IH; exact H].
-    eapply incl_tran; [apply IH; exact (step_put_inv _ _ _ _ _ H Er)|].
-    destruct H as ((Hp & _) & _). destruct Hp as (Hnd & _).
+    eapply incl_tran; [apply IH; exact (step_put_nb _ _ _ _ _ H Er)|].
+    destruct H as (Hp & _). destruct Hp as (Hnd & _).
     destruct (remove_ids _ _ _ _ Hnd Er) as (_ & Hincl).
     unfold all_leads. cbn [set_abuf set_put put_lead get_lead]. rewrite !map_app.
     apply incl_app; [apply incl_appl; exact Hincl|apply incl_appr, incl_refl].
 Qed.
 
-Lemma cancel_st_removed : forall ids st, nb_inv_full st ->
+Lemma cancel_st_removed : forall ids st, nb_inv st ->
   forall y, 0 <= y -> In y ids -> ~ In y (map l_id (all_leads (cancel_st st ids))).
 Proof.
   induction ids as [|x r IH]; intros st H y Hy Hin; [destruct Hin|].
@@ -1189,12 +1219,12 @@ Proof.
   - subst x. clear Hin. cbn [cancel_st].
     destruct (y =? NC_REQ_NULL) eqn:En; [unfold NC_REQ_NULL in En; lia|].
     assert (Hyn : y <> NC_REQ_NULL) by lia.
-    pose proof H as ((Hp & Hg) & _).
+    pose proof H as (Hp & Hg).
     rewrite land1_odd. destruct (Z.odd y) eqn:Eo.
     + assert (Hnp : ~ In y (map l_id (put_lead st))).
       { intros Hc. apply (queue_ids_parity _ _ _ _ _ Hp) in Hc. rewrite <- Z.negb_odd, Eo in Hc. discriminate. }
       destruct (remove_lead (get_lead st) y) as [[gl f]|] eqn:Er.
-      * intros Hc. apply (cancel_st_ids_incl r _ (step_get_inv _ _ _ _ H Er)) in Hc.
+      * intros Hc. apply (cancel_st_ids_incl r _ (step_get_nb _ _ _ _ H Er)) in Hc.
         unfold all_leads in Hc. cbn [set_get put_lead get_lead] in Hc. rewrite map_app in Hc.
         apply in_app_or in Hc. destruct Hc as [Hc|Hc]; [exact (Hnp Hc)|].
         destruct Hg as (Hnd & _). destruct (remove_ids _ _ _ _ Hnd Er) as (Hno & _). exact (Hno Hc).
@@ -1204,7 +1234,7 @@ Proof.
     + assert (Hng : ~ In y (map l_id (get_lead st))).
       { intros Hc. apply (queue_ids_parity _ _ _ _ _ Hg) in Hc. rewrite <- Z.negb_odd, Eo in Hc. discriminate. }
       destruct (remove_lead (put_lead st) y) as [[pl f]|] eqn:Er.
-      * intros Hc. apply (cancel_st_ids_incl r _ (step_put_inv _ _ _ _ _ H Er)) in Hc.
+      * intros Hc. apply (cancel_st_ids_incl r _ (step_put_nb _ _ _ _ _ H Er)) in Hc.
         unfold all_leads in Hc. cbn [set_abuf set_put put_lead get_lead] in Hc. rewrite map_app in Hc.
         apply in_app_or in Hc. destruct Hc as [Hc|Hc]; [|exact (Hng Hc)].
         destruct Hp as (Hnd & _). destruct (remove_ids _ _ _ _ Hnd Er) as (Hno & _). exact (Hno Hc).
@@ -1216,9 +1246,9 @@ Proof.
     destruct (x =? NC_REQ_NULL); [apply IH; assumption|].
     destruct (Z.land x 1 =? 1).
     + destruct (remove_lead (get_lead st) x) as [[gl f]|] eqn:Er; [|apply IH; assumption].
-      apply IH; [exact (step_get_inv _ _ _ _ H Er)|exact Hy|exact Hr].
+      apply IH; [exact (step_get_nb _ _ _ _ H Er)|exact Hy|exact Hr].
     + destruct (remove_lead (put_lead st) x) as [[pl f]|] eqn:Er; [|apply IH; assumption].
-      apply IH; [exact (step_put_inv _ _ _ _ _ H Er)|exact Hy|exact Hr].
+      apply IH; [exact (step_put_nb _ _ _ _ _ H Er)|exact Hy|exact Hr].
 Qed.
 
 (* ---------- cancel itself ---------- *)
@@ -1260,7 +1290,33 @@ Proof.
 Qed.
 
 (* nb_inv alone IS preserved by cancel (no id is created) *)
-Theorem cancel_maxid_shrink st n ids stat0 :
+Lemma nb_inv_ext st st' :
+  put_lead st' = put_lead st -> get_lead st' = get_lead st ->
+  put_reqs st' = put_reqs st -> get_reqs st' = get_reqs st ->
+  maxPutID st' = maxPutID st -> maxGetID st' = maxGetID st ->
+  nb_inv st -> nb_inv st'.
+Proof.
+  intros E1 E2 E3 E4 E5 E6 H. unfold nb_inv in *. rewrite E1, E2, E3, E4, E5, E6. exact H.
+Qed.
+
+Theorem cancel_inv_nb st n ids stat0 : nb_inv st -> nb_inv (wr_st (cancel st n ids stat0)).
+Proof.
+  intros H. destruct (Z.ltb_spec 0 n) as [Hn|Hn].
+  - destruct (cancel_pos_queues st n ids stat0 Hn) as (E1 & E2 & E3 & E4 & E5 & E6).
+    exact (nb_inv_ext _ _ E1 E2 E3 E4 E5 E6 (cancel_st_nb ids st H)).
+  - unfold cancel.
+    destruct (n =? 0) eqn:E0; [exact H|].
+    destruct (n <? NC_PUT_REQ_ALL) eqn:E1; [exact H|].
+    destruct (n <? 0) eqn:E2; [|lia].
+    cbv zeta. destruct H as (Hp & Hg).
+    destruct ((n =? NC_GET_REQ_ALL) || (n =? NC_REQ_ALL));
+      destruct ((n =? NC_PUT_REQ_ALL) || (n =? NC_REQ_ALL)); cbn [wr_st];
+      (split; cbn [set_abuf set_put set_get put_lead put_reqs get_lead get_reqs maxPutID maxGetID];
+       first [apply queue_inv_nil | assumption]).
+Qed.
+
+(* cancel never touches the max ids *)
+Theorem cancel_maxids st n ids stat0 :
   maxPutID (wr_st (cancel st n ids stat0)) = maxPutID st /\
   maxGetID (wr_st (cancel st n ids stat0)) = maxGetID st.
 Proof.
@@ -1302,14 +1358,14 @@ Qed.
 
 (* requests named are gone *)
 Theorem cancel_ids_removed st n ids stat0 :
-  nb_inv_full st -> 0 < n ->
+  nb_inv st -> 0 < n ->
   forall l, In l (put_lead st ++ get_lead st) -> In (l_id l) ids ->
   ~ In (l_id l) (map l_id (put_lead (wr_st (cancel st n ids stat0)) ++ get_lead (wr_st (cancel st n ids stat0)))).
 Proof.
   intros H Hn l Hin Hid.
   destruct (cancel_pos_queues st n ids stat0 Hn) as (E1 & E2 & _). rewrite E1, E2.
   apply (cancel_st_removed ids st H); [|exact Hid].
-  destruct H as ((Hp & Hg) & _). apply in_app_or in Hin. destruct Hin as [Hin|Hin].
+  destruct H as (Hp & Hg). apply in_app_or in Hin. destruct Hin as [Hin|Hin].
   - destruct Hp as (_ & _ & _ & Hwf & _). rewrite Forall_forall in Hwf. destruct (Hwf l Hin) as (_ & H0 & _). exact H0.
   - destruct Hg as (_ & _ & _ & Hwf & _). rewrite Forall_forall in Hwf. destruct (Hwf l Hin) as (_ & H0 & _). exact H0.
 Qed.
@@ -1343,6 +1399,21 @@ Ltac conc :=
          end;
   conc_leaf.
 
+(* structured evaluation: lists are evaluated, predicates are NOT normalised under binders *)
+Lemma Forall_compute {A} (P : A -> Prop) l l' : l = l' -> Forall P l' -> Forall P l.
+Proof. intros ->. exact (fun H => H). Qed.
+
+Ltac conc_top :=
+  repeat lazymatch goal with
+         | |- _ /\ _ => split
+         | |- let _ := _ in _ => cbv zeta
+         | |- nb_inv_full _ => unfold nb_inv_full, nb_inv, maxid_ok, queue_inv
+         | |- nb_inv _ => unfold nb_inv, queue_inv
+         | |- lead_wf _ _ _ => unfold lead_wf, lead_reqs
+         | |- Forall _ _ => eapply Forall_compute; [vm_compute; reflexivity|]; constructor; cbv beta
+         end;
+  vm_compute; conc.
+
 Definition ex_g1 : geom := mkgeom 2048 8 [0;3;4] 200 3.     (* record variable *)
 Definition ex_g2 : geom := mkgeom 1024 4 [4;5;6] 0 0.       (* fixed-size variable, begins earlier *)
 Definition ex_parts : list (list Z * option (list Z)) :=
@@ -1368,11 +1439,11 @@ Example ex_queue_shape :
 Proof. vm_compute. conc. Qed.
 
 Example ex_inv1 : nb_inv_full ex_st1.
-Proof. vm_compute. conc. Qed.
+Proof. conc_top. Qed.
 Example ex_inv2 : nb_inv_full ex_st2.
-Proof. vm_compute. conc. Qed.
+Proof. conc_top. Qed.
 Example ex_inv3 : nb_inv_full ex_st3.
-Proof. vm_compute. conc. Qed.
+Proof. conc_top. Qed.
 
 (* the conclusion of the geometry hypothesis on the record-split instance of ex_st1 *)
 Example ex_geometry :
@@ -1381,12 +1452,12 @@ Example ex_geometry :
   Forall (fun q => areq_wf (mkareq q l 0 0)) reqs /\
   flat_map (fun q => areq_pairs (mkareq q l 0 0)) reqs = lead_pairs l /\
   Forall (fun q => r_lead_off q = 0) reqs /\ Zlen reqs = 2.
-Proof. vm_compute. conc. Qed.
+Proof. conc_top. Qed.
 
 Example ex_cancel :
   map l_id (all_leads (wr_st (cancel ex_st3 2 [2; 1] [0; 0]))) = [0] /\
   nb_inv_full (wr_st (cancel ex_st3 2 [2; 1] [0; 0])).
-Proof. vm_compute. conc. Qed.
+Proof. conc_top. Qed.
 
 (* nb_inv WITHOUT maxid_ok is not preserved by a post: the state below satisfies nb_inv (put queue
    [id 0], maxPutID = 1), the next put gets the odd id 3 *)
@@ -1395,7 +1466,7 @@ Example nb_inv_post_counterexample :
   nb_inv ex_bad /\ post_ok ex_g2 [0;0;0] [2;5;6] None /\
   ~ nb_inv (fst (fst (post_varm ex_bad KIput ex_g2 [0;0;0] [2;5;6] None 9000 [] false 12))).
 Proof.
-  split; [vm_compute; conc|]. split; [vm_compute; conc|].
+  split; [conc_top|]. split; [conc_top|].
   intros ((_ & _ & _ & Hwf & _) & _). apply Forall_inv in Hwf. destruct Hwf as (He & _).
   vm_compute in He. discriminate He.
 Qed.
@@ -1410,5 +1481,7 @@ Print Assumptions post_varm_null.
 Print Assumptions post_varn_id.
 Print Assumptions post_varn_null.
 Print Assumptions cancel_inv.
+Print Assumptions cancel_inv_nb.
+Print Assumptions nb_inv_post_counterexample.
 Print Assumptions cancel_ids_frame.
 Print Assumptions cancel_ids_removed.
